@@ -67,6 +67,10 @@ def stencilStop (nL : ℕ) : ℤ := (nL : ℤ) / 2 + 1
 def shifts [FloorRing K] (zDist dz : K) (nL : ℕ) : ℕ → ℤ :=
   fun k => ⌊zDist / dz⌋ + (stencilStart nL + (k : ℤ))
 
+/-- index of the stencil node at or just below the foot (`Props/C10.stencil_centred`): `nL//2 - 1` for even `nL`
+    (node 2 of 0..5 for the default 6 points) -/
+def centre (nL : ℕ) : ℕ := (nL - 1) / 2
+
 /-- `self._thetaShifts = dtheta*self._shifts` (:232) -/
 def thetaShifts (dtheta : K) (sh : ℕ → ℤ) : ℕ → K := fun k => dtheta * (sh k : K)
 
